@@ -11,7 +11,13 @@ RULE = ("random dependency DAGs of 1..30 resolve.SingleFetch items (chains/forks
         "that are not in the list; occasionally a repeated entry; list order as generated, reversed or shuffled; in 3 of 4 "
         "DAGs a quarter to three quarters of the fetches are entity / batch-entity fetches on 1-3 datasources that the real "
         "createMultiFetch stage merges when they share a wave, with differing and overlapping dependency lists in shuffled "
-        "order, occasionally a differing request envelope that aborts a merge), "
+        "order, occasionally a differing request envelope that aborts a merge; 1 in 5 DAGs is built AROUND merge groups: 2-5 "
+        "providers (roots, or a root and a layer behind it), 1-2 groups of 2-4 entity fetches whose dependency lists are kept in "
+        "a fixed order and overlap -- a shared prefix followed by a tail of the member's own ([0 1] / [0 2]), ordered sub-lists "
+        "of the providers overlapping in the middle ([0 1 3] / [1 2]), a repeated entry inside one list ([0 0 1]), a list that "
+        "is a prefix of an earlier member's --, a few dependants of members and providers, ids in planner order or permuted; "
+        "unionDependencies must keep the first occurrence of every entry whatever precedes it; the distribution counts the "
+        "cases in which a scan that stops at a repeated entry would lose a dependency), "
         "each processed by the real postprocess.Processor in five configurations (legacy waves, scheduler, "
         "MultiFetch + scheduler, scheduler on a subscription plan, MultiFetch on legacy waves), three times each; 1 in 12 "
         "cases is malformed (a fetch listed twice, at most 12 fetches, no entity fetches). The tree dump carries, per node, "
@@ -33,7 +39,9 @@ RULE = ("random dependency DAGs of 1..30 resolve.SingleFetch items (chains/forks
         "implementation's trees: members_once, respects_member_deps (declared), stage_reads_respected (every fetch without "
         "declared dependencies is sequenced strictly after every fetch that writes above its response path, segment-wise) and, "
         "when the planner-side hypothesis covers_b holds, reads_respected for every fetch. A path case is non-trivial when the "
-        "stage has to complete a fetch whose provider is itself nested.")
+        "stage has to complete a fetch whose provider is itself nested. 1 in 8 path cases is a merge-group plan of the DAG stream "
+        "(overlapping dependency lists) with roots merging at a field of their own and every other fetch nested at a position of "
+        "its own with declared dependencies.")
 
 
 def classify(case, detail):
@@ -109,7 +117,34 @@ def distribution_paths(cases, results):
         1 for c in cases if re.search(r"\(S \d+ \([\d ]*\) \(\d[\d ]*\)\)", _first_tree(c, "m") or ""))
     d["scheduler_tree_differs_from_waves"] = sum(
         1 for c in cases if _first_tree(c, "w") and _first_tree(c, "s") and _first_tree(c, "w") != _first_tree(c, "s"))
+    d["cases_with_merged_node_shared_then_own_dependency_mode_m"] = sum(1 for c in cases if _shared_then_own(c, "m"))
     return d
+
+
+def _shared_then_own(case, mode):
+    """number of merged nodes of the first tree of MODE for which a member's list holds an entry that is new to the
+    union AFTER an entry that is already collected (the situation of seeded C08-m2 / C09-m6)"""
+    m = re.match(r"\(c08 \w+ \(dag(.*?)\) \(res ", case)
+    if not m:
+        return 0
+    plan = {i: d.split() for i, d in re.findall(r"\(f (\d+) \(([\d ]*)\) ", m.group(1))}
+    hits = 0
+    for mem in re.findall(r"\(S \d+ \([\d ]*\) \((\d[\d ]*)\)\)", _first_tree(case, mode) or ""):
+        mem = sorted(mem.split(), key=int)
+        seen, hit = [], False
+        for mm in mem:
+            repeated = False
+            for dep in plan.get(mm, []):
+                if dep in mem:
+                    continue
+                if dep in seen:
+                    repeated = True
+                    continue
+                if repeated:
+                    hit = True
+                seen.append(dep)
+        hits += hit
+    return hits
 
 
 def distribution(cases):
@@ -140,6 +175,8 @@ def distribution(cases):
     merged = [len(re.findall(r"\(S \d+ \([\d ]*\) \(\d[\d ]*\)\)", _first_tree(c, "m") or "")) for c in cases]
     d["with_merged_node_in_mode_m"] = sum(1 for m in merged if m > 0)
     d["merged_nodes_in_mode_m"] = sum(merged)
+    d["cases_with_merged_node_shared_then_own_dependency_mode_m"] = sum(1 for c in cases if _shared_then_own(c, "m"))
+    d["cases_with_merged_node_shared_then_own_dependency_mode_M"] = sum(1 for c in cases if _shared_then_own(c, "M"))
     d["merge_scheduler_tree_differs_from_merge_waves"] = sum(
         1 for c in cases if _first_tree(c, "m") and _first_tree(c, "M") and _first_tree(c, "m") != _first_tree(c, "M"))
     d["scheduler_tree_differs_from_waves"] = sched_differs
